@@ -34,4 +34,36 @@ ANext ==
 AView == << phase, prsv, out, Canon(wl) >>
 
 Confluent == phase = "done" => \A i \in 1..Len(Final) : out[Final[i].b] = Val(Final[i].val)
+
+(***************************************************************************)
+(* Design properties of the engine, checked on every transition of every   *)
+(* schedule (they are what makes Confluent true, and each one names a way  *)
+(* in which an engine can be wrong although one FIFO run looks fine):      *)
+(*   Ascending   within a pass no pop ever removes a value from out[b]     *)
+(*               (chaotic iteration from Bot of monotone equations)        *)
+(*   Progress    well-founded measure: a pop either adds a value           *)
+(*               somewhere or shortens the worklist - every schedule       *)
+(*               terminates after at most |FB| * (|Univ| + 1) pops a pass  *)
+(*   Bounded     out[b] never exceeds the block's own constraint           *)
+(*   FwdFix /    when a worklist runs empty, out IS a fixpoint of the      *)
+(*   BwdFix      pass's equations: the re-queueing relation (FwdMore /     *)
+(*               BwdMore) is complete for the dependencies of ReachIn /    *)
+(*               LiveIn - a missing dependent (D3: a jump predecessor of a *)
+(*               return point dropped) leaves a stale value under SOME     *)
+(*               order even when the FIFO order happens to repair it       *)
+(*   BwdInFwd    the stored result of a block is within its reachout       *)
+(***************************************************************************)
+Leq(a, b) == \A k \in 1..Keys : a[k] \subseteq b[k]
+Total(o) == LET RECURSIVE S(_)
+                S(T) == IF T = {} THEN 0 ELSE LET b == CHOOSE x \in T : TRUE
+                                              IN S(T \ {b}) + Cardinality(UNION { {<<k, e>> : e \in o[b][k]} : k \in 1..Keys })
+            IN S(FB)
+InPass == phase \in {"fwd", "bwd"} /\ phase' = phase
+Ascending == [][InPass => \A b \in FB : Leq(out[b], out'[b])]_vars
+Progress  == [][InPass => \/ Total(out') > Total(out)
+                          \/ (out' = out /\ Len(wl') < Len(wl))]_vars
+Bounded == phase \in {"fwd", "bwd"} => \A b \in FB : Leq(out[b], prsv[b])
+FwdFix == (phase = "fwd" /\ wl = << >>) => \A b \in FB : out[b] = FwdNew(b)
+BwdFix == (phase = "bwd" /\ wl = << >>) => \A b \in FB : out[b] = BwdNew(b)
+BwdInFwd == phase = "done" => \A b \in FB : Leq(out[b], prsv[b])
 =============================================================================
